@@ -206,7 +206,7 @@ def run(ctx):
     configs = acc.standard_configs(rng)
     subjects = [acc.Subject(ctx, c, rng) for c in configs]
     drv_lines, pending = [], []
-    nhist = ctx.n(3, 25)
+    nhist = ctx.n(5, 25)
     maxlen = ctx.n(10, 40)
     for s in subjects:
         run_subject(ctx, s, subjects, nhist, maxlen, drv_lines, pending)
